@@ -225,6 +225,8 @@ def run(chk):
            'replay': lambda st: replay_factory(chk, st)}]
     core.run_jobs(chk, js)
     obs_events(chk)
+    from .. import session
+    session.run_for(chk, 'C20')      # Session.tla: results do not depend on earlier calls
 
 
 def replay_case(chk, sig, case):
